@@ -93,6 +93,23 @@ def function_defs(mod):
     yield from rec(mod.tree.body, "", None, None)
 
 
+
+def significant_body(fn):
+    """Top-level statements of fn that can matter: docstrings, `pass`, and dead stores of a constant to a local that is
+    never read (tracing/debug markers) are dropped, so that rules about the shape of a body survive such edits."""
+    loaded = {n.id for n in ast.walk(fn) if isinstance(n, ast.Name) and isinstance(n.ctx, ast.Load)}
+    out = []
+    for st in fn.body:
+        if isinstance(st, ast.Expr) and isinstance(st.value, ast.Constant):
+            continue
+        if isinstance(st, ast.Pass):
+            continue
+        if isinstance(st, ast.Assign) and isinstance(st.value, ast.Constant) and all(isinstance(t, ast.Name) and t.id not in loaded for t in st.targets):
+            continue
+        out.append(st)
+    return out
+
+
 def own_nodes(fn):
     """AST nodes of fn's body excluding nested function/class bodies."""
     stack = [n for n in fn.body if not isinstance(n, (ast.FunctionDef, ast.AsyncFunctionDef, ast.ClassDef))]
